@@ -90,7 +90,7 @@ theorem pinned_partial_single_block (fl : Flags) (st : State) (h : Nat) (e : BEn
 /-- pinned partial result (termination bound): when every block of the candidate validates, the pinned loop
     returns with success after exactly `|new|` wind steps — for candidates of ANY length -/
 theorem pinned_partial_extend_terminates (fl : Flags) (hfl : fl.txVerdict = false) (st : State) (newC : List Nat)
-    (hne : newC ≠ []) (hnew : ∀ h ∈ newC, ∃ b, blkOf st h = some b ∧ b.ok = true) :
+    (hne : newC ≠ []) (hnew : ∀ h ∈ newC, ∃ b, blkOf st h = some b ∧ b.ok = true ∧ b.okNoParent = true) :
     ∃ st', runWR fl newC [] (newC.length + 1) st (.wind (newC.length - 1) false) = some (st', true) :=
   pinned_extend_succeeds fl hfl st newC hne hnew
 
@@ -98,7 +98,7 @@ theorem pinned_partial_extend_terminates (fl : Flags) (hfl : fl.txVerdict = fals
     returns with success after exactly `|old| + |new|` steps — for segments of ANY length. The livelock and the
     wrong restoration need an INVALID block in the candidate. -/
 theorem pinned_partial_reorg_terminates (fl : Flags) (hfl : fl.txVerdict = false) (st : State) (newC oldC : List Nat)
-    (hold : ∀ h ∈ oldC, (blkOf st h).isSome) (hnew : ∀ h ∈ newC, ∃ b, blkOf st h = some b ∧ b.ok = true)
+    (hold : ∀ h ∈ oldC, (blkOf st h).isSome) (hnew : ∀ h ∈ newC, ∃ b, blkOf st h = some b ∧ b.ok = true ∧ b.okNoParent = true)
     (hne : oldC ≠ []) (hlen : oldC.length < newC.length) :
     ∃ st', runWR fl newC oldC (oldC.length + newC.length + 1) st (.unwind 0 true oldC) = some (st', true) :=
   pinned_reorg_succeeds fl hfl st newC oldC hold hnew hne hlen
@@ -106,7 +106,7 @@ theorem pinned_partial_reorg_terminates (fl : Flags) (hfl : fl.txVerdict = false
 /-- non-vacuity: the witness state `s5` offers the all-valid candidate [5,4] against [3,2]... which is not longer;
     with one more valid block 6' the hypotheses of `pinned_partial_reorg_terminates` hold -/
 example : let st := (addBlock {} s5 (blk 7 5 4) []).1
-    (∀ h ∈ [3, 2], (blkOf st h).isSome) ∧ (∀ h ∈ [7, 5, 4], ∃ b, blkOf st h = some b ∧ b.ok = true) := by
+    (∀ h ∈ [3, 2], (blkOf st h).isSome) ∧ (∀ h ∈ [7, 5, 4], ∃ b, blkOf st h = some b ∧ b.ok = true ∧ b.okNoParent = true) := by
   decide +kernel
 
 end Saito.C04
